@@ -420,7 +420,8 @@ def run_case(inp):
             n = [int(v) for v in inp["n"]]
             sg = [float(v) for v in inp["sigma"]]
             sh = [float(v) for v in inp["shift"]]
-            shape_nm = tuple(k * scale for k in n)
+            # the box edge in nm need not be a whole number of voxels
+            shape_nm = tuple((k + f) * scale for k, f in zip(n, inp.get("frac", [0.0, 0.0, 0.0])))
             g = np.asarray(pipe.from_gaussian(shape_nm, tuple(sg), tuple(sh))(scale))
             if g.shape != tuple(n):
                 V("gaussian-shape", f"from_gaussian shape {g.shape} != {tuple(n)} px")
@@ -532,7 +533,8 @@ def oracle(rng, thorough, deep=False, hints=None):
         cases.append(dict(kind="gaussian", n=[int(v) for v in rng.integers(5, 14, size=3)],
                           sigma=[float(v) for v in rng.choice([0.8, 1.5, 2.2], size=3)],
                           shift=[[0.0, 0.0, 0.0], [1.0, -0.5, 0.25], [0.0, 2.0, -1.5]][i % 3],
-                          scale=float(rng.choice([1.0, 0.5, 2.0])), seed=i))
+                          scale=float(rng.choice([1.0, 0.5, 2.0])), seed=i,
+                          frac=[[0.0, 0.0, 0.0], [0.3, -0.4, 0.45], [-0.25, 0.0, 0.4]][(i + 1) % 3]))
     for i in range(4 if big else 2):
         cases.append(dict(kind="rescale", shape=[10, 12, 14], orig=float(rng.choice([1.0, 0.8])),
                           ratio=float([1.5, 0.5, 2.0, 0.75][i % 4]), seed=int(rng.integers(0, 10 ** 6))))
